@@ -72,6 +72,21 @@ type Outcome struct {
 	Results []AVal
 	Trace   []Event
 	Why     string
+	Heap    map[int]*aObj // final abstract memory of this path
+}
+
+// Slot reads a known slot of the object an abstract pointer refers to in this outcome.
+func (o Outcome) Slot(p AVal, path string) (AVal, bool) {
+	ptr, ok := p.(aPtr)
+	if !ok || o.Heap == nil {
+		return nil, false
+	}
+	obj := o.Heap[ptr.ID]
+	if obj == nil {
+		return nil, false
+	}
+	v, ok := obj.Slots[ptr.Path+path]
+	return v, ok
 }
 
 type EvalConfig struct {
@@ -135,7 +150,7 @@ func (ev *Evaluator) Eval(fn *ssa.Function, args []AVal) []Outcome {
 	}
 	ev.st0 = nil
 	ev.call(fn, args, nil, 0, st0, func(res []AVal, st *pstate, kind, why string) {
-		outs = append(outs, Outcome{Kind: kind, Results: res, Trace: append([]Event(nil), st.trace...), Why: why})
+		outs = append(outs, Outcome{Kind: kind, Results: res, Trace: append([]Event(nil), st.trace...), Why: why, Heap: clonePState(st).heap})
 	})
 	return outs
 }
@@ -426,6 +441,11 @@ func (ev *Evaluator) doCall(fr *frame, x *ssa.Call, b *ssa.BasicBlock, idx int, 
 			fr = cloneFrame(base)
 			resume(res, st2)
 		})
+		return
+	}
+	// error constructors always return a non-nil error
+	if key == "fmt.Errorf" || key == "errors.New" || strings.HasSuffix(key, "pkg/errcode.ErrCode).Wrap") || strings.HasPrefix(key, "github.com/pkg/errors.") {
+		resume([]AVal{aNonNil{Tag: "error"}}, st)
 		return
 	}
 	resume(topResults(cc.Signature()), st)
